@@ -19,19 +19,21 @@ def run(p, led, tier):
     la = LockAnalysis(p, res, lys)
     led.explanation = (
         "R1 lock-region analysis (re-acquisition of the non-re-entrant lysosome lock through resolved same-instance "
-        "callees). R2 lockset of the queue. R3 the capacity test dominates the only growth site and its true edge "
-        "passes a shrinking routine. R4 wherever the queue is cut, the processed part and the kept part are "
-        "complementary slices. R5 per-item try/except around every digester call, errors recorded, counters only on "
-        "the success edge. R6 the built-in toxic digester returns an empty mapping on all paths and calls the toxic "
-        "callback at most once per invocation, and is the registered digester for the toxic type.")
+        "callees). R2 lockset of the queue. R3–R6 conservation tables: ingest, digest(k), autophagy and "
+        "ingest_sensitive+digest are abstractly interpreted (fdai) over all fill levels × capacities 2–4 × auto-digest "
+        "on/off, queue sizes 0–3 × digest limits × equal/rising priorities, with an adversarial digester that returns "
+        "an empty mapping, a mapping, or raises at every call: the queue never exceeds its capacity, every item that "
+        "leaves it goes through its digester exactly once, none is both queued and processed, a failing digester is "
+        "contained per item and recorded, disposed + errors = items taken, and a sensitive item reaches the toxic "
+        "callback exactly once and is never recycled.")
     led.not_decided = ["counter exactness under bytecode-level races outside the lock", "autophagy's clock arithmetic", "user-supplied digesters for the toxic type"]
     led.assumptions = ["A3 digesters / on_toxic do not call back into the lysosome", "max_queue_size >= 2 (statement)"]
     led.rule("C13-R1", "no region of the non-re-entrant lysosome lock reaches a re-acquisition of the same lock", 4)
     led.rule("C13-R2", "every access to the queue in a method that rewrites it happens under the lock (or in a helper entered only with it held)", 6)
-    led.rule("C13-R3", "the append in ingest is dominated by the capacity test whose true edge shrinks the queue; nothing else grows the queue", 2)
-    led.rule("C13-R4", "where the queue is cut, processed prefix and kept suffix are complementary", 2)
-    led.rule("C13-R5", "every digester call sits in a per-item try/except Exception; digest records the error; counters only on the success edge", 3)
-    led.rule("C13-R6", "the toxic digester returns an empty mapping on every path, calls the toxic callback at most once, and is registered for the toxic type", 3)
+    led.rule("C13-R3", "after every ingest the queue is within capacity and every item that left it went through its digester exactly once (all interpreted fill levels / capacities / digester outcomes)", 2)
+    led.rule("C13-R4", "digest(k) and autophagy partition the queue: exactly the cut items are processed, each once; nothing is both kept and processed", 2)
+    led.rule("C13-R5", "a failing digester is contained per item and recorded; disposed + errors = items taken; counters only on success", 3)
+    led.rule("C13-R6", "a sensitive item is labelled toxic, reaches the toxic callback exactly once and is never recycled", 3)
 
     if len(la.locks) != 1:
         raise AnchorError(f"Lysosome is expected to own exactly one lock attribute; found {sorted(la.locks)}")
